@@ -89,8 +89,11 @@ Definition b2n (b : bool) : N := if b then 1 else 0.
 Fixpoint last_opt {A} (l : list A) : option A :=
   match l with [] => None | [x] => Some x | _ :: r => last_opt r end.
 
-(* 0, 1, ..., n-1 *)
-Definition nseq (n : N) : list N := map N.of_nat (seq 0 (N.to_nat n)).
+(* 0, 1, ..., n-1 (counting in N: linear time when extracted; Proofs/ResLemmas.nseq_unfold gives the
+   map/seq form) *)
+Fixpoint nseq_from (start : N) (k : nat) : list N :=
+  match k with O => [] | S m => start :: nseq_from (N.succ start) m end.
+Definition nseq (n : N) : list N := nseq_from 0 (N.to_nat n).
 
 Arguments N.add : simpl never.
 Arguments N.sub : simpl never.
